@@ -139,7 +139,7 @@ func sortOf(t types.Type) string {
 	case *types.Array:
 		es := sortOf(u.Elem())
 		if es == "" {
-			return ""
+			return "Opaque" // arrays of structs are carried as atomic values (no element access)
 		}
 		return "(Array Int " + es + ")"
 	case *types.TypeParam:
@@ -874,6 +874,8 @@ func zeroTerm(t types.Type) string {
 		return "f64.zero"
 	case "C128":
 		return "c128.zero"
+	case "Opaque":
+		return "opaque.zero"
 	}
 	if strings.HasPrefix(s, "(Array Int ") {
 		if a, ok := t.Underlying().(*types.Array); ok {
@@ -908,6 +910,9 @@ func (c *Ctx) zeroVal(t types.Type) *Val {
 	}
 	if strings.Contains(z, "c128.zero") {
 		c.declare("c128.zero", "C128")
+	}
+	if strings.Contains(z, "opaque.zero") {
+		c.declare("opaque.zero", "Opaque")
 	}
 	return &Val{T: t, Term: z}
 }
